@@ -40,6 +40,22 @@ def vp_check(group, unit: float, report) -> int:
             ok, obs = False, type(ex).__name__
         if not ok:
             report("VPScalarCost", {"t0": t0.tolist(), "t1": t1.tolist(), "cost": q, "specified": want, "observed": obs})
+    # a very large FINITE cost on large spike times: once cost * (smallest time difference) >= 2 the distance no longer
+    # depends on the cost, so it must equal the specified distance of the largest saturated cost of the group
+    sat = [rec for rec in group if rec["q2"] != -1 and rec["q2"] >= 4]
+    if sat:
+        want = max(sat, key=lambda r: r["q2"])["d2"] / 2.0
+        for huge, scale in ((1e36, 512.0), (3e30, 4096.0)):
+            n += 1
+            try:
+                got = inferno.victor_purpura_pair_dist(t0 * scale, t1 * scale, huge)
+                ok = tuple(got.shape) == (1,) and float(got[0]) == want
+                obs = got.tolist()
+            except Exception as ex:
+                ok, obs = False, type(ex).__name__
+            if not ok:
+                report("VPHugeCost", {"t0": (t0 * scale).tolist(), "t1": (t1 * scale).tolist(), "cost": huge,
+                                      "specified": want, "observed": obs})
     n += 1
     try:
         got = inferno.victor_purpura_pair_dist(t0, t1, torch.tensor(costs, dtype=torch.float32))
